@@ -1,11 +1,10 @@
 # fam_cmcodec.py — count-min sketch image: Coq codec model coq/CodecCmDefs.v (enc / dec_bytes / dec_stream, theorems in
 # Properties_C09_cm.v, Properties_C10_cm.v, Properties_C11_cm.v, old behaviour in Regression_cmcodec.v) against
 # count_min_sketch<int64_t>::serialize / deserialize(bytes) / deserialize(istream) through harness/drv_cmcodec.cpp.
-# The model describes the readers as REPAIRED by fixes/11_count_min_reader_checks.patch: against the unrepaired tree this
-# family reports VIOLATION (bytes reader reads past a truncated buffer, stream reader accepts truncated streams).
-# To activate: add 'fam_cmcodec' to the module lists in checks/C09.py, C10.py, C11.py (maintainer).
+# The model describes the readers as repaired by the commit 'fix: count_min_sketch::deserialize checks the size of the weight and table ...'
+# (fixes/11_count_min_reader_checks.patch); the behaviour before it is kept as theorems in coq/Regression_cmcodec.v.
 #
-# Mutations confirmed caught (scratch worktree with the patch applied, VERIF_REPO=/tmp/wt_serde): see the end of this file.
+# Mutations confirmed caught (scratch worktree, VERIF_REPO): see MUTATIONS at the end of this file.
 READY_C09 = True
 READY_C10 = True
 READY_C11 = True
@@ -164,3 +163,10 @@ RULE_C10 = RULE_C09 + '; plus images written in Python from the documented layou
 RULE_C11 = ('every strict prefix of empty and non-empty images on both reader paths (must be rejected; the model decoder must agree), every byte of the 16-byte preamble replaced by '
             '0x00/0xFF/0x7F/0x80/+1/-1/bit flips with the Coq decoders predicting accept/reject and the decoded content (including the uint8 wrap of check_header_validity); corrupted sizes that '
             'make the reader allocate gigabytes before checking are left to the serde family (known finding); non-trivial = every case')
+
+MUTATIONS = '''
+ M4 (see fam_serde.py) num_buckets / num_hashes written and read in swapped order consistently: image != Coq encoder (correspondence), cm_documented_layout
+ M7 count_min_sketch::deserialize(istream) loses its final stream-state test: cm_prefix_accepted on every cut inside the table (model decoder rejects)
+ on the tree before the reader fix: 336 cm_prefix_accepted + model/implementation differences on corrupted headers read from a stream (recorded run)
+ harmless H2 (bulk write of the table): exit 0
+'''
